@@ -1040,6 +1040,25 @@ def rule_sections_and_ranges(ctx) -> None:
         for k in sorted(keys):
             pth = f"t1.decay.{k}"
             upper = any(const_str(c.args[1]) == pth and any(("<=" in t or "<" in t) and not pol for t, pol in cfg.facts(n)) for n, c in errs)
+            if not upper:
+                # other spellings of the same test (`x < 0 or not (x <= 1)`): the guarding condition, folded with a huge value in
+                # place of the knob, is true - i.e. a huge value is rejected
+                for n, c in errs:
+                    if const_str(c.args[1]) != pth:
+                        continue
+                    for st, part in enclosing(ctx.prog, impl, c):
+                        if isinstance(st, ast.If) and part == "body":
+                            class _Sub(ast.NodeTransformer):
+                                def visit_Subscript(self, node):
+                                    return ast.copy_location(ast.Constant(value=1e308), node) if const_str(node.slice) == k else self.generic_visit(node)
+                            try:
+                                expr = ast.Expression(_Sub().visit(ast.parse(src(st.test), mode="eval").body))
+                                ast.fix_missing_locations(expr)
+                                if eval(compile(expr, "<fold>", "eval"), {"__builtins__": {}, "float": float, "abs": abs}) is True:
+                                    upper = True
+                            except Exception:
+                                pass
+                            break
             ctx.check(upper, "C14.CONTRACT", f"{impl.qual}/range:{pth}-bounded-above", impl.loc(), f"{pth} is bounded above (the decay evaluates {k} ** distance)",
                       f"{pth} is coerced to float but has no upper bound: the decay evaluates `{src(x)}`, and float ** int raises OverflowError (it does not return inf) - `{k}: 1e200` is accepted and a "
                       "walk that reaches distance 2 raises out of the turn")
